@@ -12,11 +12,14 @@ import vlib
 
 LEVEL = "proof"
 K = dict(LOCK=1, UNLOCK=2, WAIT=3, WAKE=4, SIGNAL=5, BCAST=6, ENQ=7, DEQ=8, RUN=9, DONE=10, DISCARD=11, CALL=12, RET=13,
-         SPAWN=14, EXIT=15, JOIN=16, FREE=17)
+         SPAWN=14, EXIT=15, JOIN=16, FREE=17,
+         REGS=18,    # observation, not an event: tid:18:id0:id1:... = tp->threads as seen by the mutex holder `tid`
+         DETACH=19)  # observation: tid:19:id = pthread_detach(id) called by `tid`
 
 # directed interleavings (hold/open rules of the harness) for the three defects found with this family; they stay
 # in the corpus after the fixes.  H:tid:kind:nth:gate = hold thread before its nth event of that kind until the gate
-# opens, O:gate:tid:kind:nth = open the gate at that event, gt=task:gate = task body waits for the gate.
+# opens, O:gate:tid:kind:nth = open the gate at that event (tid -1: at the nth event of that kind of any thread),
+# gt=task:gate = task body waits for the gate.
 DIRECTED = [
     # one task running, two queued, iwstw_shutdown(nowait) with a discard callback
     ("stw-discard-crash",
@@ -43,7 +46,34 @@ DIRECTED = [
     ("tp-overflow-thread-after-shutdown",
      "tp nthr=1 lim=0 ovf=1 nsub=1 nt=3 dur=0 wait=1 yp=0 sp=0 seed=1 trig=99:0 gt=0:1 "
      "rules=H:10:12:2:2,O:2:0:9:1,H:20:12:1:3,O:3:10:13:3,O:1:20:2:1,H:30:1:1:4,O:4:20:17:1"),
+    # registry of the pool with overflow threads that leave out of order (1 pool thread, factor 2 => up to 3 entries).
+    # task 0 keeps pool thread 0 busy; the 3rd / 4th schedule spawn overflow threads 30 / 31 (registry [0,30,31], cached
+    # indexes 1 / 2); 30 finishes first and unregisters ([0,31]: the cached index 2 of thread 31 is stale now); the 5th
+    # schedule spawns 32 ([0,31,32]); then 31 finishes (must leave [0,32]; removal through the cached index 2 would
+    # unregister the live thread 32 instead); then shutdown(wait) joins 0 and 32.
+    ("tp-registry-stale-index",
+     "tp nthr=1 lim=0 ovf=2 nsub=1 nt=5 dur=0 wait=1 yp=0 sp=0 seed=1 trig=99:0 gt=0:1,1:4,2:5,3:7 "
+     "rules=H:10:12:2:2,O:2:0:9:1,H:10:12:4:3,O:3:30:9:1,O:4:31:9:1,H:10:12:5:6,O:6:30:15:1,O:5:32:9:1,"
+     "H:20:12:1:8,O:8:31:15:1,O:1:20:2:1,O:7:20:2:1"),
+    # same start; no third overflow thread: when 31 leaves its cached index 2 is beyond the end of [0,31]; a busy query
+    # (api 5) before (pool thread + 2 overflow threads inside task bodies => 3) and after
+    ("tp-registry-stale-index-end",
+     "tp nthr=1 lim=0 ovf=2 nsub=1 nt=6 dur=0 wait=1 yp=0 sp=0 seed=1 trig=99:0 apis=000055 gt=0:1,1:4,2:5 "
+     "rules=H:10:12:2:2,O:2:0:9:1,H:10:12:4:3,O:3:30:9:1,H:10:12:5:6,O:6:31:9:1,O:4:10:13:5,H:10:12:6:9,O:9:30:15:1,"
+     "O:5:10:13:6,H:20:12:1:8,O:8:31:15:1,O:1:20:2:1"),
+    # 2 pool threads, factor 1: overflow threads 30, 31 next to the busy pool threads 0, 1; 30 leaves first
+    ("tp-registry-two-pool-threads",
+     "tp nthr=2 lim=0 ovf=1 nsub=1 nt=7 dur=0 wait=1 yp=0 sp=0 seed=1 trig=99:0 apis=0000005 gt=0:1,1:1,2:4,3:5 "
+     "rules=H:10:12:2:2,O:2:-1:9:1,H:10:12:3:3,O:3:-1:9:2,H:10:12:5:6,O:6:30:9:1,H:10:12:6:7,O:7:31:9:1,O:4:10:13:6,"
+     "H:10:12:7:9,O:9:30:15:1,O:5:10:13:7,H:20:12:1:8,O:8:31:15:1,O:1:20:2:1"),
 ]
+# the sequence of distinct registry contents that the directed schedule is meant to produce (checked on the real trace;
+# a different sequence without a violation = schedule not reached = inconclusive, reported as a note)
+EXPECT_REGS = {
+    "tp-registry-stale-index": [[0], [0, 30], [0, 30, 31], [0, 31], [0, 31, 32], [0, 32]],
+    "tp-registry-stale-index-end": [[0], [0, 30], [0, 30, 31], [0, 31], [0]],
+    "tp-registry-two-pool-threads": [[0, 1], [0, 1, 30], [0, 1, 30, 31], [0, 1, 31], [0, 1]],
+}
 
 
 def params(line):
@@ -68,6 +98,19 @@ def gen_scenario(rng, tier):
     total = nsub * nt
     tk = rng.weighted([(0, 2), (K["RET"], 4), (K["RUN"], 2), (K["WAIT"], 2)])
     tn = rng.range(0, total) if tk in (K["RET"], K["RUN"]) else rng.range(1, 4)
+    if tp and rng.chance(3, 5):
+        # overflow churn: several overflow threads alive at once that take tasks of different length, so that they leave in
+        # another order than they were registered (their cached indexes in tp->threads go stale)
+        nthr, ovf = rng.choice([(1, 2), (1, 2), (2, 2), (2, 1), (4, 1), (1, 1)])
+        nsub = rng.choice([3, 4, 4, 8])
+        nt = rng.choice([4, 7, 12])
+        lim = rng.choice([0, 0, 0, 3])
+        durs = "".join(str(rng.choice([0, 1, 2, 2])) for _ in range(nsub * nt))
+        mix = rng.choice([0, 10, 20])
+        tk = rng.weighted([(0, 3), (K["RET"], 2), (K["RUN"], 2)])
+        tn = rng.range(nsub * nt // 2, nsub * nt)
+        return "tp nthr=%d lim=%d ovf=%d nsub=%d nt=%d dur=2 durs=%s wait=%d mix=%d yp=%d sp=%d seed=%d trig=%d:%d" % (
+            nthr, lim, ovf, nsub, nt, durs, wait, mix, yp, sp, seed, tk, tn)
     if tp:
         nthr = rng.choice([1, 2, 4])
         ovf = rng.choice([0, 1, 2])
@@ -235,6 +278,106 @@ def monitor(p, r):
     return []
 
 
+def registry(p, r):
+    """iwtp only; bookkeeping over the real event trace, independent of the Coq model.  Returns (notes, stats).
+    * tp->threads: expected content = pool threads 0..nthr-1, then every thread created by iwtp_schedule (SPAWN, in
+      order), minus the threads that detached themselves (DETACH).  SPAWN, DETACH and the REGS observations are all
+      logged by the thread that holds the mutex, so their order in the log is the order of the critical sections; every
+      REGS observation (taken at the end of a critical section) must equal the expected list, same order.
+    * when iwtp_shutdown has returned: every thread the executor created was joined by it exactly once or detached
+      itself, never both (pthread_join of a detached thread), never neither (leak; thread may run on after the free).
+    * iwtp_threads_busy_num (api 5): the value was read inside the caller's critical section LOCK..UNLOCK.  A thread whose
+      RUN was logged before that LOCK and whose DONE was not logged before that UNLOCK is inside a task body during the
+      whole section (busy is incremented before the dequeue, decremented after the body returned): lower bound.  Threads
+      that logged EXIT, or WAIT without a later WAKE, before that UNLOCK are not busy: upper bound alive - parked.  And
+      0 <= v <= nthr * (1 + min(factor, 2))."""
+    st = {"coex": 0, "stale": 0, "busyq": 0, "regs": 0, "spawned": 0, "seq": []}
+    if p["kind"] != "tp" or r["tag"] != "R":
+        return [], st
+    nthr = int(p.get("nthr", "1"))
+    cap = nthr * (1 + max(0, min(int(p.get("ovf", "0")), 2)))
+    exp = list(range(nthr))
+    created = list(range(nthr))
+    alive, parked = set(range(nthr)), set()
+    running, serial = {}, 0       # thread -> serial number of the task body it is in
+    joined, detached = {}, {}
+    api, snap, bounds = {}, {}, {}
+    notes = []
+    for i, tok in enumerate(r["trace"]):
+        f = [int(x) for x in tok.split(":")]
+        t, k = f[0], f[1]
+        a = f[2] if len(f) > 2 else 0
+        if k == K["SPAWN"]:
+            exp.append(a); created.append(a); alive.add(a); st["spawned"] += 1
+            st["coex"] = max(st["coex"], sum(1 for x in exp if x >= nthr))
+        elif k == K["DETACH"]:
+            detached[a] = detached.get(a, 0) + 1
+            if a in exp:
+                if exp.index(a) < len(exp) - 1:
+                    st["stale"] += 1  # a thread registered later is still listed: its cached index is stale from now on
+                exp.remove(a)
+            if a != t:
+                notes.append("thread %d detached thread %d (event %d)" % (t, a, i))
+        elif k == K["REGS"]:
+            obs = f[2:]
+            st["regs"] += 1
+            if not st["seq"] or st["seq"][-1] != obs:
+                st["seq"].append(obs)
+            if obs != exp and not notes:
+                notes.append("registry of iwtp does not hold exactly the live threads: at event %d (%s) tp->threads = %s but the "
+                             "threads created and not yet detached are %s (pool 0..%d, overflow threads from 30 in creation order)"
+                             % (i, tok, obs, exp, nthr - 1))
+        elif k == K["JOIN"]:
+            joined[a] = joined.get(a, 0) + 1
+        elif k == K["EXIT"]:
+            alive.discard(t); parked.discard(t); running.pop(t, None)
+        elif k == K["WAIT"] and (t < 10 or t >= 30):
+            parked.add(t)
+        elif k == K["WAKE"]:
+            parked.discard(t)
+        elif k == K["RUN"]:
+            serial += 1; running[t] = serial
+        elif k == K["DONE"]:
+            running.pop(t, None)
+        elif k == K["CALL"]:
+            api[t] = a
+        elif k == K["LOCK"] and api.get(t) == 5:
+            snap[t] = dict(running)
+        elif k == K["UNLOCK"] and api.get(t) == 5 and t in snap:
+            lo = sum(1 for u, n in snap.pop(t).items() if running.get(u) == n)
+            bounds[t] = (lo, len(alive - parked))
+        elif k == K["RET"] and api.get(t) == 5:
+            api[t] = None
+            st["busyq"] += 1
+            lo, hi = bounds.pop(t, (0, cap))
+            if not (0 <= a <= cap):
+                notes.append("iwtp_threads_busy_num returned %d (event %d): outside 0..%d = num_threads * (1 + overflow factor)"
+                             % (a, i, cap))
+            elif a > hi:
+                notes.append("iwtp_threads_busy_num returned %d (event %d) while only %d threads of the pool were alive and not "
+                             "parked on the condition variable during the call" % (a, i, hi))
+            elif a < lo:
+                notes.append("iwtp_threads_busy_num returned %d (event %d) while %d threads of the pool were inside a task body "
+                             "during the whole call" % (a, i, lo))
+    h = r["hdr"]
+    if int(h.get("sdret", "0")) and h.get("sdrc") == "0":
+        for c in created:
+            j, d = joined.get(c, 0), detached.get(c, 0)
+            if j and d:
+                notes.append("registry of iwtp does not hold exactly the live threads: iwtp_shutdown joined thread %d, which had "
+                             "detached itself (pthread_join of a detached thread)" % c)
+            elif j + d == 0:
+                notes.append("registry of iwtp does not hold exactly the live threads: thread %d created by the executor was "
+                             "neither joined by iwtp_shutdown nor detached (not waited for: it can run on after the executor "
+                             "is freed)" % c)
+            elif j > 1 or d > 1:
+                notes.append("thread %d joined %d times / detached %d times" % (c, j, d))
+        for c in joined:
+            if c not in created:
+                notes.append("iwtp_shutdown joined thread id %d which is not a (not yet joined) thread of the executor" % c)
+    return notes[:3], st
+
+
 def model_line(p, r, variant=2):
     hook = r["hdr"].get("hook", "0")
     if p["kind"] == "stw":
@@ -324,6 +467,21 @@ def evaluate(run, exe, model, named, env, label):
             run.notes.append("event log overflow in `%s`" % l)
             continue
         viol = oracle(p, r) or monitor(p, r)
+        if p["kind"] == "tp":
+            rv, rs = registry(p, r)
+            viol = viol or rv
+            if rs["spawned"]:
+                run.dist("tp-overflow-thread-spawned")
+            if rs["coex"] >= 2:
+                run.dist("tp-coexisting-overflow-threads>=2")
+            if rs["stale"]:
+                run.dist("tp-stale-cached-index(earlier-registered thread left first)")
+            if rs["busyq"]:
+                run.dist("tp-busy-queries", rs["busyq"])
+            run.dist("tp-registry-observations", rs["regs"])
+            if name in EXPECT_REGS and not viol and rs["seq"] != EXPECT_REGS[name] and r["tag"] == "R":
+                run.notes.append("directed schedule of `%s` was not reached (registry sequence %s): inconclusive" % (name, rs["seq"]))
+                run.dist("inconclusive-directed")
         for note in viol[:1]:
             nviol += 1
             run.violation({"scenario": l, "name": name, "kind": p["kind"], "outcome": results[i][:4000] if results[i] else None,
@@ -424,7 +582,8 @@ def check(run):
         level=LEVEL,
         rule="scenario = executor kind x queue limit {0,1,3} x blocking x discard callback x 1..8 submitters x tasks per submitter x "
              "task durations {0,short,long,mixed} x shutdown(wait|nowait) at a seeded trigger x API mix (schedule, schedule_only, "
-             "schedule_empty_only, queue_size) x perturbation (yield %, injected spurious wake-up %, seed); plus directed "
+             "schedule_empty_only, queue_size, threads_busy_num) x iwtp threads {1,2,4} x overflow factor {0,1,2} (+ overflow-churn "
+             "shape: explicit mixed task durations so that overflow threads leave out of order) x perturbation (yield %, injected spurious wake-up %, seed); plus directed "
              "interleavings (hold/open rules). distinct = distinct scenario text with a trace of > 10 events",
         assumptions=["pthread mutex/condvar semantics as in the model: mutual exclusion, wait releases the mutex atomically, "
                      "a wait may return at any time (spurious), signal releases at least one parked waiter",
@@ -449,7 +608,7 @@ def replay(run, path):
         res, errs = run_batch(exe, [line], env)
         o = res[0]
         rr = parse_result(o) if o else {"tag": "DIED", "hdr": {}, "trace": [], "tasks": []}
-        v = oracle(p, rr) or monitor(p, rr)
+        v = oracle(p, rr) or monitor(p, rr) or registry(p, rr)[0]
         if not v and r.get("kind") == "tsan" and any("data race" in e for e in errs):
             v = ["ThreadSanitizer data race: " + errs[0][-600:]]
         if not v and rr["tag"] == "R":
